@@ -143,10 +143,10 @@ Definition kind_of (ct : option str) : option str :=
   else if is_type ct "SharedNIC" then Some (S"SharedPort")
   else None.
 
-Definition units_of (b : bdf_t) : Z :=                 (* len(lab.bdf) if lab.bdf is not None else 1 *)
+Definition units_of (b : bdf_t) : Z :=                 (* len(lab.bdf) if isinstance(lab.bdf, list) else 1 *)
   match b with
   | BNone => 1
-  | BStr s => Z.of_nat (List.length s)                 (* len() of a str: what the code does *)
+  | BStr _ => 1                                        (* a single address: one device *)
   | BList l => Z.of_nat (List.length l)
   end.
 Definition local_of (b : bdf_t) (port : str) : localv :=
